@@ -155,6 +155,17 @@ PROPS = {
              "filters. The values DuckDB computes (that + adds, that joins match the right rows) are not decided.",
         note="Trusts SQL semantics of DuckDB's scalar functions (NULL in -> NULL out), COALESCE, CASE, AND/OR. VTL's null rules are an "
              "oracle table in the checker. Found and repaired: null-condition row filter of if-then-else."),
+
+    "C08": dict(
+        claimed=True, design="§3 C08",
+        technique="macro-table extraction from the .sql libraries + integer evaluation of the parsed period-limit and period-shift expressions with DuckDB's // and % semantics over all (period, shift in -60..60) cells vs calendar arithmetic + sibling limit-table comparison + macro call-site/signature agreement",
+        text="Decides the arithmetic clauses of the calendar property that live in this repository: period limits must be year-aware for "
+             "weeks and days, Python and SQL must agree on them, the carry/modulo arithmetic of period shifting must equal calendar "
+             "arithmetic for every period number and every shift in -60..60 (so shifting by n then -n is the identity and distinct "
+             "inputs stay distinct), and Python call sites must pass macro arguments in the order the macro declares. Does not decide "
+             "anything computed by DuckDB date functions (time_agg, datediff, dateadd, getmonth).",
+        note="Known findings: the SQL limits are the constants 52/365 (demonstrated collisions at week 53 / day 366). DuckDB's integer "
+             "semantics (// truncates, % keeps the dividend's sign) is an external fact encoded in the evaluator."),
 }
 
 NA_REASONS = {
